@@ -49,6 +49,11 @@ class Report:
         self.assumptions = []
         self.findings = [f for f in load_findings().get("findings", []) if f.get("property") == pid]
         self.counters = {}
+        rd = os.path.join(OUT, "replays")
+        if os.path.isdir(rd):
+            for fn in os.listdir(rd):
+                if fn.startswith(pid + "-"):
+                    os.unlink(os.path.join(rd, fn))
 
     def count(self, key, n=1):
         self.counters[key] = self.counters.get(key, 0) + n
@@ -78,14 +83,16 @@ class Report:
         for fid, h in sorted(self.known_hits.items()):
             print("KNOWN-FINDING: property=%s %s [%s] (%d occurrences this run)" % (self.pid, h["what"], fid, h["n"]))
         seen = set()
+        per_key = {}
         for clause, cls, wit in self.violations:
             key = (clause, cls)
+            per_key[key] = per_key.get(key, 0) + 1
+            if per_key[key] > 5:
+                continue        # at most 5 replay files / lines per (clause, class)
             blob = json.dumps({"property": self.pid, "clause": clause, "class": cls, "witness": wit},
                               indent=1, sort_keys=True, default=str)
             hsh = hashlib.sha256(blob.encode()).hexdigest()[:12]
             path = os.path.join(OUT, "replays", "%s-%s.json" % (self.pid, hsh))
-            if key in seen and len(seen) > 20:
-                continue
             seen.add(key)
             with open(path, "w") as f:
                 f.write(blob)
